@@ -2355,7 +2355,7 @@ Error Assembler::_emit(InstId inst_id, const Operand_& o0, const Operand_& o1, c
 
         opcode.reset(op_data.opcode);
         if (imm >= 32) {
-          if (!x)
+          if (!x || imm >= 64)
             goto InvalidImmediate;
           opcode.add_imm(x, 31);
           imm &= 0x1F;
